@@ -221,6 +221,7 @@ func (cb *CellBuffer) Resize(w, h int) {
 // If either the foreground or background are ColorNone, then the respective
 // color is unchanged.
 func (cb *CellBuffer) Fill(r rune, style Style) {
+	width := runewidth.RuneWidth(r)
 	for i := range cb.cells {
 		c := &cb.cells[i]
 		c.currMain = r
@@ -233,7 +234,7 @@ func (cb *CellBuffer) Fill(r rune, style Style) {
 			cs.bg = c.currStyle.bg
 		}
 		c.currStyle = cs
-		c.width = 1
+		c.width = width
 	}
 }
 
